@@ -16,6 +16,9 @@ mod util;
 
 pub mod io;
 
+#[cfg(feature = "verif")]
+pub mod verif;
+
 use serde::{Deserialize, Serialize};
 
 /// Representation of an event participant's data
